@@ -860,6 +860,9 @@ pub enum Mix {
     /// a crowded list bin that one thread extends (-> treeify) while another drains it with
     /// retain / retain_force / removes: opens the windows around late treeification
     Drain,
+    /// many threads (4-8) inserting many distinct keys into a tiny table: several resize
+    /// generations with helpers arriving at arbitrary moments (explored with random tapes)
+    Long,
 }
 
 fn key_strategy(hot: u16) -> BoxedStrategy<u16> {
@@ -907,6 +910,7 @@ pub fn cop_strategy(mix: Mix, hot: u16) -> BoxedStrategy<COp> {
             1 => (k.clone(), act).prop_map(|(k, a)| COp::Compute(k, a)),
         ]
         .boxed(),
+        Mix::Long => (16u16..200).prop_map(COp::Insert).boxed(),
         Mix::Drain => prop_oneof![
             3 => k.clone().prop_map(COp::Remove),
             1 => (k.clone(), Just(Act::Remove)).prop_map(|(k, a)| COp::Compute(k, a)),
@@ -972,9 +976,34 @@ fn drain_prog_strategy(max_threads: usize) -> BoxedStrategy<Prog> {
         .boxed()
 }
 
+fn long_prog_strategy(max_threads: usize, max_ops: usize) -> BoxedStrategy<Prog> {
+    let hm = prop_oneof![4 => Just(HMode::Mix), 2 => Just(HMode::Identity), 1 => Just(HMode::SameBin), 1 => Just(HMode::Mod4)];
+    (hm, prop_oneof![Just(0u32), Just(1u32), Just(5u32)], 4usize..=max_threads.max(4), (max_ops / 2).max(2)..=max_ops.max(2), prop_oneof![Just(1u32), Just(8u32), Just(120u32)], any::<u8>())
+        .prop_map(|(hmode, capacity, nthreads, per, batch, extra)| {
+            let mut threads = Vec::new();
+            for t in 0..nthreads {
+                let mut ops: Vec<COp> = (0..per).map(|j| COp::Insert(16 + (t * per + j) as u16)).collect();
+                // a few lookups / removals of other threads' keys keep helpers arriving through
+                // every path (forwarded bins met by remove / compute / get)
+                if extra as usize % (t + 2) == 0 {
+                    ops.insert(per / 2, COp::Remove(16 + (((t + 1) % nthreads) * per) as u16));
+                }
+                if extra as usize % (t + 3) == 0 {
+                    ops.insert(per / 3, COp::Get(16 + (((t + 2) % nthreads) * per + 1) as u16));
+                }
+                threads.push(ops);
+            }
+            Prog { cfg: CCfg { hmode, capacity, batch, gmode: GuardMode::PerOp }, filler: 0, hot_init: vec![], threads }
+        })
+        .boxed()
+}
+
 pub fn prog_strategy(mix: Mix, max_threads: usize, max_ops: usize) -> BoxedStrategy<Prog> {
     if mix == Mix::Drain {
         return drain_prog_strategy(max_threads);
+    }
+    if mix == Mix::Long {
+        return long_prog_strategy(max_threads, max_ops);
     }
     prog_strategy_general(mix, max_threads, max_ops).boxed()
 }
